@@ -48,7 +48,7 @@ MIN_HOOKS = {"save_match": {"quick": 300, "thorough": 4000}, "load_matchfile": {
              "load_match": {"quick": 400, "thorough": 5000}}
 MIN_NONTRIVIAL = {"quick": 150, "thorough": 2000}
 ITEM_TIMEOUT_S = 240
-LOAD_BUDGET_S = 40
+LOAD_BUDGET_S = 20
 
 BEAT_TOL = Fraction(5, 10**5)
 _hooks = []
@@ -294,6 +294,18 @@ def check_text(ctx, S, text):
                 wrong.add("bar")
                 V("written-measure-number-differs", f"score note {sid} lies in measure index {mi} (numbered from {base}), written "
                   f"measure {f['bar']}", S.witness(note=e, written=f["bar"]))
+            if mi is not None and f["bar"] == base + mi and f["offs"] is not None:
+                ms, me = A["measures"][mi]
+                b, bt = A["bm"].sig_at(ms)
+                pos_q = Fraction(f["beat"] - 1) * Fraction(4, bt) + f["offs"] * 4       # quarters from the bar's origin
+                left = Fraction(e["t"] - ms, A["q"])
+                right = left + (Fraction(4 * b, bt) - Fraction(me - ms, A["q"])) if (mi == 0 and A["pickup"]) else left
+                if pos_q not in (left, right):
+                    wrong.add("onset")
+                    V(f"written-beat-and-offset-do-not-give-the-onset:{ctxq}", f"score note {sid} stands {left} quarters after its "
+                      f"barline ({b}/{bt}); written beat {f['beat']} + offset {f['offs']} whole notes give {pos_q} quarters when beats "
+                      f"are counted in units of the denominator (as the reader and the historical files do)",
+                      S.witness(note=e, written_beat=f["beat"], written_offset=f["offs"]))
             want = []
             if e["voice"] is not None:
                 want.append(f"v{e['voice']}")
@@ -317,7 +329,7 @@ def check_text(ctx, S, text):
         if bad:
             wrong.add(key)
             midbar = any(A["bm"].beat(s) != b for b, _, s in A[key])
-            V(f"written-{attr}-differs" + (":mid-bar" if midbar else "") + (":several" if len(exp_seq) > 1 else ""),
+            V(f"written-{attr}-lines-differ",
               f"{attr} lines say {[(float(a), b) for a, b in got_seq]} (time in beats, value), the score has "
               f"{[(float(a), b) for a, b in exp_seq]}", S.witness(written=[[f["val"], f["bar"], f["tb"]] for f in props]))
         for f in props:
@@ -334,7 +346,7 @@ def check_text(ctx, S, text):
 
 
 # --------------------------------------------------------------------------- reader side: the loaded triple
-def check_loaded(ctx, S, wrong, loaded):
+def check_loaded(ctx, S, wrong, loaded, text=None):
     perf, alignment, scr = loaded
     A = S.A
     # ---- alignment
@@ -471,7 +483,14 @@ def check_loaded(ctx, S, wrong, loaded):
     # ---- score
     if scr is None or S.suffix is None:
         return
-    lp = scr[0]
+    check_score(ctx, S, wrong, scr[0], text)
+
+
+def check_score(ctx, S, wrong, lp, text=None):
+    """Score side. Positions are compared in quarters counted from the first saved note that came back (the
+    loaded part has its own origin and divisions); with equal notes, barlines and signatures the positions in
+    beats are equal too, which is checked last."""
+    A = S.A
     try:
         B = R.abstract_part(lp)
     except ValueError:
@@ -482,19 +501,16 @@ def check_loaded(ctx, S, wrong, loaded):
         sid = S.sid(sid0)
         if sid0 in A["dup_ids"]:
             continue
-        if S.s_cov[sid] == 0:
-            ctx.ambiguous()                       # not mentioned by the alignment: no line in the format
-            continue
-        if S.s_cov[sid] > 1:
-            ctx.ambiguous()
+        if S.s_cov[sid] != 1:
+            ctx.ambiguous()                       # not mentioned by the alignment (no line in the format) or mentioned twice
             continue
         expected_ids[sid] = e
-    shift_reported = False
-    onset_bars = {A["measure_of"](e["t"]) for e in expected_ids.values()}
-    # the file gives no bar lengths: a pickup bar is only delimited by a note onset in the bar that follows it
-    origin_unknown = A["pickup"] and (1 not in onset_bars or 0 not in onset_bars)
-    if origin_unknown:
-        ctx.ambiguous()
+    ctx.check()
+    if B["off_grid"]:
+        V("loaded-score-positions-off-the-division-grid", f"the loaded score has {len(B['off_grid'])} time points at non-integer "
+          f"positions, e.g. {B['off_grid'][:3]} (divisions {B['q']})", S.witness(positions=B["off_grid"][:6], loaded_divs=B["q"]))
+        return
+    present = {}
     for sid, e in expected_ids.items():
         g = B["notes"].get(sid)
         ctx.check()
@@ -503,22 +519,40 @@ def check_loaded(ctx, S, wrong, loaded):
                 V(f"score-note-{'lost' if g is None else 'duplicated'}", f"score note {sid} occurs {'0' if g is None else '>1'} times "
                   f"in the loaded score", S.witness(note=e))
             continue
+        present[sid] = (e, g)
+    ctx.check()
+    known = {S.sid(x) for x in A["notes"]}
+    added = [i for i in B["notes"] if i not in known]
+    if added and "entries" not in wrong:
+        V("score-note-added", f"loaded score has notes that were not saved: {added[:4]}", S.witness())
+    if not present:
+        return
+    onset_bars = {A["measure_of"](e["t"]) for e, _ in present.values()}
+    dens = {v[1] for _, v, _ in A["ts"]}
+    in_between = [i for i in range(min(onset_bars), max(onset_bars) + 1) if i not in onset_bars] if None not in onset_bars else []
+    timing_ctx = "meter-denominator-changes" if len(dens) > 1 else \
+        (meter_context(A) + (":pickup" if A["pickup"] else "") + (":bars-without-note-onsets" if in_between else ""))
+    e0, g0 = min(present.values(), key=lambda x: (x[0]["t"], str(x[0]["id"])))
+
+    def rel_a(t):
+        return Fraction(t - e0["t"], A["q"])
+
+    def rel_b(t):
+        return Fraction(t - g0["t"], B["q"])
+
+    structure_ok = True
+    onset_bad = False
+    for sid, (e, g) in present.items():
         ctx.check(7)
-        mq = meter_context(A, e["t"])
-        if "onset" not in wrong and not origin_unknown and abs(g["onset_beat"] - e["onset_beat"]) > BEAT_TOL and not shift_reported:
-            shift_reported = True
-            V(f"score-onset-in-beats-differs:{mq}" + (":pickup" if A["pickup"] else "") + (":grace" if e["grace"] else ""),
-              f"score note {sid}: onset {e['onset_beat']} beats saved, {g['onset_beat']} loaded",
-              S.witness(note=e, loaded_onset_beat=g["onset_beat"], loaded_divs=B["q"]))
-        if origin_unknown:
-            if "duration" not in wrong and g["dur_q"] != e["dur_q"]:
-                V(f"score-duration-differs:{'tied' if e['tied'] else ('grace' if e['grace'] else 'plain')}",
-                  f"score note {sid}: duration {e['dur_q']} quarters saved, {g['dur_q']} loaded", S.witness(note=e))
-        elif "duration" not in wrong and "offset" not in wrong and not shift_reported \
-                and abs((g["offset_beat"] - g["onset_beat"]) - (e["offset_beat"] - e["onset_beat"])) > BEAT_TOL:
-            V(f"score-duration-in-beats-differs:{mq}:{'tied' if e['tied'] else ('grace' if e['grace'] else 'plain')}",
-              f"score note {sid}: duration {e['offset_beat'] - e['onset_beat']} beats saved, {g['offset_beat'] - g['onset_beat']} loaded",
-              S.witness(note=e, loaded_duration_beat=g["offset_beat"] - g["onset_beat"], loaded_divs=B["q"]))
+        if "onset" not in wrong and rel_a(e["t"]) != rel_b(g["t"]) and not onset_bad:
+            onset_bad = True
+            V(f"score-onset-differs:{timing_ctx}", f"score note {sid} starts {rel_a(e['t'])} quarters after the first note "
+              f"{e0['id']} in the saved score, {rel_b(g['t'])} quarters after it in the loaded one",
+              S.witness(note=e, first_note=e0["id"], loaded_divs=B["q"]))
+        if "duration" not in wrong and g["dur_q"] != e["dur_q"]:
+            structure_ok = False
+            V(f"score-duration-differs:{'tied' if e['tied'] else ('grace' if e['grace'] else 'plain')}:{meter_context(A, e['t'])}",
+              f"score note {sid}: duration {e['dur_q']} quarters saved, {g['dur_q']} loaded", S.witness(note=e, loaded_divs=B["q"]))
         if "spelling" not in wrong and (g["step"], g["alter"], g["octave"]) != (e["step"], e["alter"], e["octave"]):
             V("score-spelling-differs", f"score note {sid}: {e['step']}{e['alter']:+d}{e['octave']} saved, "
               f"{g['step']}{g['alter']:+d}{g['octave']} loaded", S.witness(note=e))
@@ -530,31 +564,28 @@ def check_loaded(ctx, S, wrong, loaded):
             if g["articulations"] != e["articulations"]:
                 V("score-articulations-differ", f"score note {sid}: articulations {e['articulations']} saved, {g['articulations']} "
                   f"loaded", S.witness(note=e))
-    ctx.check()
-    added = [i for i in B["notes"] if i not in expected_ids and i not in {S.sid(x) for x in A["notes"]}]
-    if added and "entries" not in wrong:
-        V("score-note-added", f"loaded score has notes that were not saved: {added[:4]}", S.witness())
-    if not expected_ids or shift_reported or origin_unknown:
+    if onset_bad or "onset" in wrong:
         return
-    # ---- measures, judged between the first onset's bar and the end of the last sounding note
-    on_min = min(e["onset_beat"] for e in expected_ids.values())
-    off_max = max(e["offset_beat"] for e in expected_ids.values())
-    all_on_min = min(e["onset_beat"] for e in A["notes"].values())
-    uncovered = len(expected_ids) != len(A["notes"])
-    exp_m = [(s, e) for s, e in A["measure_beats"] if e is not None and e > on_min and s < off_max]
-    got_m = [(s, e) for s, e in B["measure_beats"] if e is not None and e > on_min and s < off_max]
+    uncovered = len(present) != len(A["notes"])
+    end_a = max(rel_a(e["t"] + e["dur"]) for e, _ in present.values())
+    # ---- measures that overlap [first onset, end of the last sounding note); a start before the first note counts as 0
+    # (a bar opening with a rest is only known from its first note on)
     ctx.check()
+    m_a = [(max(rel_a(s), Fraction(0)), rel_a(e)) for s, e in A["measures"] if e is not None and rel_a(e) > 0 and rel_a(s) < end_a]
+    m_b = [(max(rel_b(s), Fraction(0)), rel_b(e)) for s, e in B["measures"] if e is not None and rel_b(e) > 0 and rel_b(s) < end_a]
     if uncovered:
         ctx.ambiguous()                           # bars holding only unmentioned notes cannot be in the file
-    elif A["pickup"] and A["measure_beats"][0][0] < all_on_min < A["measure_beats"][0][1]:
-        ctx.ambiguous()                           # pickup bar opening with a rest: its start is not in the file
+    elif A["pickup"] and 1 not in onset_bars:
+        ctx.ambiguous()                           # the file gives no bar lengths: a pickup bar is delimited by an onset in the next bar
+        structure_ok = None
     else:
-        es, gs = [s for s, _ in exp_m], [s for s, _ in got_m]
+        es, gs = [x for x, _ in m_a], [x for x, _ in m_b]
         if es != gs:
-            missing = [s for s in es if s not in gs]
-            addl = [s for s in gs if s not in es]
-            mq = meter_context(A)
-            idx_missing = [i for i, (s, _) in enumerate(A["measure_beats"]) if s in missing]
+            structure_ok = False
+            missing = [x for x in es if x not in gs]
+            addl = [x for x in gs if x not in es]
+            mq = "meter-denominator-changes" if len(dens) > 1 else meter_context(A)
+            idx_missing = [i for i, (s, _) in enumerate(A["measures"]) if rel_a(s) in missing]
             if missing and not addl and all(i not in onset_bars for i in idx_missing):
                 key = "measure-without-note-onset-merged-into-neighbour"
             elif missing and not addl:
@@ -562,39 +593,64 @@ def check_loaded(ctx, S, wrong, loaded):
             elif addl and not missing:
                 key = f"barline-added:{mq}"
             else:
-                key = f"barlines-moved:{mq}" + (":pickup" if A["pickup"] else "")
-            V(key, f"measures start at beats {[str(x) for x in es]} in the saved score, at {[str(x) for x in gs]} in the loaded one",
-              S.witness(saved_measure_beats=es, loaded_measure_beats=gs))
-        elif exp_m and exp_m[-1][1] != got_m[-1][1] and exp_m[-1][1] <= off_max:
-            V("last-measure-end-differs", f"last judged measure ends at beat {exp_m[-1][1]} saved, {got_m[-1][1]} loaded", S.witness())
-    # ---- signatures at the start of their bar
+                key = f"barlines-moved:{mq}" + (":pickup" if A["pickup"] else "") + (":bars-without-note-onsets" if in_between else "")
+            V(key, f"measures start {[str(x) for x in es]} quarters after the first note in the saved score, "
+              f"{[str(x) for x in gs]} in the loaded one", S.witness(saved_measure_starts=es, loaded_measure_starts=gs))
+        elif m_a and m_a[-1][1] != m_b[-1][1] and m_a[-1][1] <= end_a:
+            structure_ok = False
+            V("last-measure-end-differs", f"the last judged measure ends {m_a[-1][1]} quarters after the first note in the saved score, "
+              f"{m_b[-1][1]} in the loaded one", S.witness())
+    # ---- signatures: at the start of the bar where they were written; of those before the first note only the one in force
     for key, name in (("ts", "time-signature"), ("ks", "key-signature")):
         if key in wrong:
             continue
-        exp_s = [(b, v) for b, v, _ in A[key] if b < off_max]
-        got_raw = [(B["bm"].beat(s), v, s) for _, v, s in B[key]]
-        got_s = [(b, v) for b, v, _ in got_raw if b < off_max]
         ctx.check()
         if uncovered:
             ctx.ambiguous()
             continue
-        # of the signatures standing before the first note only the one in force there is in the file
-        exp_n = R.drop_redundant([(max(b, on_min), v) for b, v in exp_s])
-        got_n = R.drop_redundant([(max(b, on_min), v) for b, v in got_s])
-        if exp_n != got_n:
-            bars_wo_onset = any(A["measure_of"](s) not in {A["measure_of"](e["t"]) for e in expected_ids.values()} for _, _, s in A[key])
-            at_bar_start = all(any(b == ms for ms, _ in B["measure_beats"]) for b, _, _ in got_raw)
-            if len(exp_n) == len(got_n) and all(a[1] == b[1] for a, b in zip(exp_n, got_n)):
-                k = f"{name}-position-differs" + ("" if at_bar_start else ":not-at-a-bar-start") + \
-                    (":bar-without-note-onset" if bars_wo_onset else "")
-            elif len(got_n) < len(exp_n):
-                k = f"{name}-lost" + (":bar-without-note-onset" if bars_wo_onset else "")
-            elif len(got_n) > len(exp_n):
-                k = f"{name}-added"
-            else:
-                k = f"{name}-value-differs"
-            V(k, f"{name}s (beat, value): saved {[(str(a), b) for a, b in exp_n]}, loaded {[(str(a), b) for a, b in got_n]}",
-              S.witness(saved=[[str(a), b] for a, b in exp_n], loaded=[[str(a), b] for a, b in got_n]))
+
+        def bar_start_a(t):
+            i = A["measure_of"](t)
+            return A["measures"][i][0] if i is not None else t
+
+        exp_n = R.drop_redundant([(max(rel_a(bar_start_a(s)), Fraction(0)), v) for _, v, s in A[key] if rel_a(bar_start_a(s)) < end_a])
+        got_n = R.drop_redundant([(max(rel_b(s), Fraction(0)), v) for _, v, s in B[key] if rel_b(s) < end_a])
+        if exp_n == got_n:
+            continue
+        structure_ok = False
+        if key == "ks" and text is not None:
+            # a mechanism of its own: the bar *number* of the line used as the position (in divisions)
+            bars = sorted({f["bar"] for kd, f in R.read_text(text)["lines"] if kd == "scoreprop" and f["attr"] == "keySignature"})
+            if bars and {t_ for t_, _, _ in B["ks_raw"]} <= set(bars):
+                V("key-signature-placed-at-its-bar-number", f"key signatures of bars {bars} stand at positions "
+                  f"{sorted({t_ for t_, _, _ in B['ks_raw']})} (divisions) of the loaded score: the bar number was used as the time",
+                  S.witness(saved=[[str(a), b] for a, b in exp_n], loaded=[[str(a), b] for a, b in got_n], loaded_divs=B["q"]))
+                continue
+        sig_bars = {A["measure_of"](s) for _, _, s in A[key]}
+        bars_wo_onset = any(i not in onset_bars for i in sig_bars)
+        b_starts = {rel_b(s) for s, _ in B["measures"]}
+        at_bar_start = all(p in b_starts or p == 0 for p, _ in got_n)
+        if len(exp_n) == len(got_n) and all(x[1] == y[1] for x, y in zip(exp_n, got_n)):
+            near = all(abs(x[0] - y[0]) < Fraction(1, B["q"]) * 2 for x, y in zip(exp_n, got_n))
+            k = f"{name}-position-differs" + (":by-a-division" if near else "") + ("" if at_bar_start else ":not-at-a-bar-start") + \
+                (":bar-without-note-onset" if bars_wo_onset else "")
+        elif len(got_n) < len(exp_n):
+            k = f"{name}-lost" + (":bar-without-note-onset" if bars_wo_onset else "")
+        elif len(got_n) > len(exp_n):
+            k = f"{name}-added" + (":bar-without-note-onset" if bars_wo_onset else "")
+        else:
+            k = f"{name}-value-differs" + (":bar-without-note-onset" if bars_wo_onset else "")
+        V(k, f"{name}s (quarters after the first note, value): saved {[(str(x), y) for x, y in exp_n]}, loaded "
+          f"{[(str(x), y) for x, y in got_n]}", S.witness(saved=[[str(x), y] for x, y in exp_n], loaded=[[str(x), y] for x, y in got_n]))
+    # ---- beats: equal notes, barlines and signatures must give equal beats
+    if structure_ok and not uncovered and not (A["pickup"] and 0 not in onset_bars):
+        for sid, (e, g) in present.items():
+            ctx.check(2)
+            if abs(g["onset_beat"] - e["onset_beat"]) > BEAT_TOL or abs(g["offset_beat"] - e["offset_beat"]) > BEAT_TOL:
+                V(f"score-beats-differ-with-equal-structure:{timing_ctx}", f"score note {sid}: onset/offset {e['onset_beat']}/"
+                  f"{e['offset_beat']} beats saved, {g['onset_beat']}/{g['offset_beat']} loaded although notes, barlines and "
+                  f"signatures agree", S.witness(note=e, loaded_divs=B["q"]))
+                break
 
 
 # --------------------------------------------------------------------------- hooks
@@ -665,7 +721,7 @@ def load_and_judge(ctx, S, wrong, path, text, cls, origin):
             last["witness"]["detail"] = S.witness(file_head=text.splitlines()[:60])
         ctx.case(["load-raised", core.digest(S.desc)], False, cls="load-raised")
         return
-    check_loaded(ctx, S, wrong, loaded)
+    check_loaded(ctx, S, wrong, loaded, text)
     A = S.A
     feats = {"tie": any(n["tied"] for n in A["notes"].values()), "nonquarter": meter_context(A) != "quarter-meter",
              "ts_change": len(A["ts"]) > 1, "pickup": A["pickup"], "grace": any(n["grace"] for n in A["notes"].values())}
@@ -786,7 +842,7 @@ def post_load_match(ret, exc, token, a, k):
             continue
         if have[pid] != 1:
             lab = next(kd for (kd, s, p) in kept if p is not None and R.prefixed(p) == pid)
-            V(f"performed-note-line-{'lost' if have[pid] == 0 else 'duplicated'}:{lab}",
+            V(f"performed-note-{'lost' if have[pid] == 0 else 'duplicated'}:{lab}",
               f"performed note {pid} ({lab} line) occurs {have[pid]} times in the loaded performance", dict(wit, id=pid, label=lab))
             break
     if scr is not None:
@@ -808,7 +864,7 @@ def post_load_match(ret, exc, token, a, k):
                     V("tie-continuation-id-collides-with-score-note-id", f"the loaded score has {ids[sid]} notes with id {sid}: the "
                       f"score note and continuation(s) of another note split at a barline", dict(wit, id=sid))
                 else:
-                    V(f"score-note-line-{'lost' if ids[sid] == 0 else 'duplicated'}",
+                    V(f"score-note-{'lost' if ids[sid] == 0 else 'duplicated'}",
                       f"score note {sid} occurs {ids[sid]} times in the loaded score", dict(wit, id=sid))
                 break
     if token == "driver":
